@@ -52,7 +52,7 @@ func (p PolD) Gallina() string {
 	case "Bulkhead":
 		return fmt.Sprintf("PBulkhead %d%%nat %d", p.Inst, p.MaxWait)
 	case "Timeout":
-		return fmt.Sprintf("PTimeout %d", p.Limit)
+		return fmt.Sprintf("PTimeout %s", gZ(p.Limit))
 	case "Hedge":
 		return fmt.Sprintf("PHedge {| hg_max := %d%%nat; hg_delay := %d; hg_cancel := build_hedge_cancel %s |}", p.Hedges, p.HDelay, callsGallina(p.Cancel, true))
 	case "Fallback":
